@@ -6,3 +6,5 @@ open TFVerif.C10
 #print axioms batches_rejects
 #print axioms epoch_partition
 #print axioms batch_is_selection
+#print axioms batch_is_selection_ragged
+#print axioms batch_ragged_cells
